@@ -89,7 +89,8 @@ struct krec { /* router key identity */
 };
 
 #define MAX_P 1024
-#define MAX_K 192
+#define MAX_K 448
+#define BASE_K 192 /* what the allocation histories and the concurrent engine use */
 #define N_SKI 6
 struct universe {
 	int np, nk;
@@ -285,6 +286,9 @@ struct simcfg {
 	size_t (*rawgen)(struct sim *s, uint8_t *out, size_t cap, uint64_t fuzz_seed, int where);
 	long slow_query; /* > 0: the answer to this query (1-based) arrives one byte per slow_gap seconds; later answers at once */
 	unsigned int slow_gap;
+	long mode_switch_at_byte; /* > 0: the application calls rtr_set_interval_mode(mode_switch_to) once this many bytes of the first connection have been
+				   * delivered - typically between the Cache Response and the End of Data of a response */
+	int mode_switch_to;
 	long intr_at_byte; /* > 0: on connection intr_conn a receive call is interrupted (TR_INTR) exactly after this many delivered bytes */
 	long intr_conn;
 	uint64_t fuzz_seed;
@@ -334,6 +338,7 @@ struct sim {
 	long tcalls; /* transport calls so far (open/send/recv) */
 	pid_t fsm_tid; /* kernel id of the thread that made the latest transport call */
 	bool intr_fired;
+	bool mode_switched;
 	bool slow_started;
 	uint8_t slow_rest[40]; /* second part of an unsolicited PDU that is delivered in two parts (event kinds 8, 9) */
 	size_t slow_rest_len;
